@@ -64,6 +64,13 @@ func c04Healthy(r *rng, id string) {
 				go func() { defer pending.Done(); nd.m.Leave(2 * time.Second) }()
 				ops = append(ops, "leave:"+nd.name)
 			}
+		case 3:
+			// a burst of tiny user broadcasts around the one-byte part count of a compound message
+			if !nd.left {
+				k := []int{255, 255, 254, 256, 100, 300}[r.intn(6)]
+				nd.queueBurst(k)
+				ops = append(ops, fmt.Sprintf("burst%d:%s", k, nd.name))
+			}
 		case 2:
 			tgt := cl.nodes[r.intn(n)]
 			if !tgt.left && !nd.left && tgt != nd {
